@@ -16,7 +16,7 @@ from mc.ref import interp, tracegrammar
 
 ALPHA_FULL = ["src", "srcdef", "paysrc", "mul", "muldef", "ctxw", "fail", "badw", "interrupt", "abort", "sysexit", "sum", "probe_factor",
               "ren_r_factor", "del_factor", "slice_mul", "sweep_op", "sink_ctx", "bogus", "probe_nokey", "unknown", "two",
-              "slice_mul3", "slice_muldef", "sweep_two", "sweep_probe", "kwtwo", "kwgainprobe", "nestw", "failempty", "muldefnone", "mulinf"]
+              "slice_mul3", "slice_muldef", "sweep_two", "sweep_probe", "kwtwo", "kwgainprobe", "nestw", "failempty", "muldefnone", "mulinf", "itemsum"]
 # pipelines holding two DIFFERENT generated classes of the same family (same module + qualname, different parameter tables / bindings)
 SAME_FAMILY_PROGS = [
     ("sweep_src", "slice_mul3", "slice_muldef"), ("sweep_src", "slice_muldef", "slice_mul3"), ("sweep_src", "slice_mul", "slice_muldef", "sum"),
@@ -54,11 +54,21 @@ def first_accepted_kind(prog) -> str:
     return "none"
 
 
-def judge_case(prog, ctx, detail, mode, scratch) -> Tuple[Optional[Tuple[str, str]], dict]:
+# one node-definition OBJECT listed several times (Python API / YAML alias): every occurrence is its own node in the trace
+ALIASED_PROGS = [("src", "mul3", "mul3"), ("src", "probe_r", "probe_r", "mul3", "mul3", "probe_r"), ("src", "mul3", "fail", "mul3"), ("src", "mul3", "mul3", "fail"),
+                 ("sweep_src", "slice_mul3", "slice_mul3", "sum"), ("src", "sweep_op", "sum", "sweep_op", "sum"), ("src", "src")]
+
+
+def judge_case(prog, ctx, detail, mode, scratch, aliased: bool = False) -> Tuple[Optional[Tuple[str, str]], dict]:
     dkind = first_accepted_kind(prog)
     ref = interp.run(prog, gen.ref_data(dkind), ctx)
     try:
-        records, files, real, pipe, driver = traces.traced_single(prog, dkind, ctx, detail=detail, mode=mode, scratch=scratch)
+        pipe0 = None
+        if aliased:
+            from mc.props.c01 import build_aliased
+
+            pipe0 = build_aliased(prog)
+        records, files, real, pipe, driver = traces.traced_single(prog, dkind, ctx, detail=detail, mode=mode, scratch=scratch, pipeline=pipe0)
     except Exception as exc:  # loader / Pipeline() refuses the configuration: nothing ran, nothing to trace
         return None, {"class": "loader-rejects:" + type(exc).__name__}
     info = {"class": f"{ref.status}:{ref.error}@{ref.index}", "records": len(records)}
@@ -146,16 +156,18 @@ def _worker(chunk):
             out["n"] += len(seq)
             out["nontrivial"].add(core.sha([prog, seq]))
             continue
-        prog, detail, mode = item
+        aliased = len(item) > 3
+        prog, detail, mode = item[:3]
         for ctx in cases_for(prog):
-            bad, info = judge_case(prog, ctx, detail, mode, scratch)
+            bad, info = judge_case(prog, ctx, detail, mode, scratch, aliased)
             out["n"] += 1
             c = info["class"].split("@")[0]
             out["classes"][c] = out["classes"].get(c, 0) + 1
             if info.get("records", 0) >= 3 or "fail" in c or "construct" in c:
                 out["nontrivial"].add(core.sha([prog, ctx, info["class"]]))
             if bad:
-                out["viol"].append((bad[0], bad[1], {"prog": list(prog), "ctx": ctx, "detail": detail, "mode": mode}, info["class"]))
+                out["viol"].append((bad[0] + ("|shared-node-definition" if aliased else ""), bad[1],
+                                    {"prog": list(prog), "ctx": ctx, "detail": detail, "mode": mode, "aliased": aliased}, info["class"]))
             if out["sample"] is None and info.get("records", 0) >= 4:
                 out["sample"] = {"prog": list(prog), "ctx": ctx, "detail": detail, "mode": mode, "outcome": info["class"], "records": info["records"]}
         from mc.props.c01 import _housekeeping
@@ -183,6 +195,9 @@ def plan(tier: str):
             # longer programs: rotate through the (all 7 distinct flag sets) x mode grid (every combination occurs for every failure kind/index)
             k = i % (len(DETAIL_SETS) * len(modes))
             jobs.append((p, DETAIL_SETS[k % len(DETAIL_SETS)], modes[k // len(DETAIL_SETS)]))
+    for i, p in enumerate(ALIASED_PROGS):
+        for j, d in enumerate(["hash", "all"] if tier == "quick" else details):
+            jobs.append((p, d, modes[(i + j) % 2], "aliased"))
     return jobs
 
 
@@ -229,5 +244,5 @@ def replay(case) -> List[Violation]:
     scratch = harness.enter_scratch()
     if case.get("kind") == "history":
         return [Violation(s, m, c) for s, m, c in judge_history(tuple(case["prog"]), case["ctxs"], case["detail"], case["mode"], scratch)]
-    bad, info = judge_case(tuple(case["prog"]), case["ctx"], case["detail"], case["mode"], scratch)
+    bad, info = judge_case(tuple(case["prog"]), case["ctx"], case["detail"], case["mode"], scratch, bool(case.get("aliased")))
     return [Violation(failure_signature(bad[0], info["class"]), bad[1], case)] if bad else []
